@@ -5,6 +5,7 @@ import Gzx.Driver.C04
 import Gzx.Driver.C05
 import Gzx.Driver.C06
 import Gzx.Driver.C06Det
+import Gzx.Driver.C06Rest
 import Gzx.Driver.C07
 import Gzx.Driver.C08
 import Gzx.Driver.C09
@@ -31,6 +32,7 @@ def dispatch (line : String) : String :=
   | "c05" :: rest => C05.handle rest
   | "c06" :: rest => C06.handle rest
   | "c06det" :: rest => C06Det.handle rest
+  | "c06rest" :: rest => C06Rest.handle rest
   | "c07" :: rest => C07.handle rest
   | "c08" :: rest => C08.handle rest
   | "c09" :: rest => C09.handle rest
